@@ -338,6 +338,8 @@ FAM = {"int": INTS, "bool": BOOLS, "float": FLOATS, "frac": FRACS, "complex": CP
        "real": st.one_of(INTS, FLOATS, FRACS, BOOLS),
        "mixed": st.one_of(INTS, FLOATS, FRACS, BOOLS, CPLX),
        "mx": MXS,
+       # == and != are defined for every object: None is an element (and a scalar operand) like any other
+       "objects": st.sampled_from([None, None, None, 0, 1, 1.5, True]),
        "wild": wone((2, INTS), (2, FLOATS), (2, FRACS), (1, BOOLS), (2, CPLX), (1, SPECIAL), (1, MXS))}
 EXPONENTS = st.one_of(st.integers(-2, 3), st.integers(0, 3),
                       st.sampled_from([0.5, 2.0, Fraction(1, 2), True]))
@@ -383,6 +385,8 @@ def domain(base):
     dom = [(f, f, f) for f in fams]
     dom += [("int*" + f, "int", f) for f in ("float", "frac", "complex")]
     dom += [(f + "*int", f, "int") for f in ("float", "frac", "complex")]
+    if base in ("eq", "ne"):
+      dom += [("objects", "objects", "objects")] * 3
   return dom * 6 + [("wild", "wild", "wild")]
 
 
@@ -1205,7 +1209,58 @@ def run_attr(case):
   return {"nontrivial": len(model.vals) >= 2, "labels": labels}
 
 
+# --------------------------------------------------------------------------
+# an operator builds a new Stream: its operand is not altered
+# --------------------------------------------------------------------------
+KEEP_OPS = {
+  # (abs() is not one of the 35 operator methods the property quantifies over; Stream.__abs__ maps
+  #  its operand in place on the unchanged tree, which is why it is not listed here)
+  "neg": lambda s: -s, "pos": lambda s: +s, "invert": lambda s: ~s,
+  "add": lambda s: s + 3, "radd": lambda s: 3 + s, "mul": lambda s: s * 2, "rsub": lambda s: 1 - s,
+  "eq": lambda s: s == 1, "neg_neg": lambda s: -(-s),
+}
+KEEP_REF = {
+  "neg": lambda v: -v, "pos": lambda v: +v, "invert": lambda v: ~v,
+  "add": lambda v: v + 3, "radd": lambda v: 3 + v, "mul": lambda v: v * 2, "rsub": lambda v: 1 - v,
+  "eq": lambda v: v == 1, "neg_neg": lambda v: -(-v),
+}
+
+
+def strat_keep(tier):
+  return st.fixed_dictionaries(dict(
+    v=st.one_of(st.integers(-9, 9), st.fractions(-3, 3, max_denominator=4)),
+    ops=st.lists(st.sampled_from(sorted(KEEP_OPS)), min_size=1, max_size=3),
+    kind=st.sampled_from(["const", "const", "control"]), k=st.integers(1, 4)))
+
+
+def run_keep(case):
+  """Stream(v) (an endless constant) and a ControlStream may be used in several expressions:
+  building -s, abs(s), s + 3 ... must leave s itself yielding v."""
+  v = case["v"]
+  ops = [o for o in case["ops"] if not (o == "invert" and not isinstance(v, int))]
+  if not ops:
+    ops = ["neg"]
+  s = audiolazy.ControlStream(v) if case["kind"] == "control" else Stream(v)
+  results = [(o, KEEP_OPS[o](s)) for o in ops]
+  k = case["k"]
+  got = s.take(k)
+  if got != [v] * k or any(type(g) is not type(v) for g in got):
+    raise Violation("after building %s from s = %s(%r), s itself yields %r" % (
+      ", ".join(ops), "ControlStream" if case["kind"] == "control" else "Stream", v, got))
+  for o, r in results:
+    if not isinstance(r, Stream):
+      raise Violation("%s on a Stream gave %r" % (o, r))
+    g = r.take(k)
+    e = [KEEP_REF[o](v)] * k
+    if g != e:
+      raise Violation("%s of the constant stream %r yields %r, expected %r (expressions built: %s)"
+                      % (o, v, g, e, ", ".join(ops)))
+  return {"nontrivial": len(ops) >= 2, "labels": ["kind:" + case["kind"]] + sorted(set(ops))}
+
+
 CLAUSES = [
+  Clause("operand_kept", strat_keep, run_keep, quick=600, thorough=6000,
+         doc="an operator returns a new Stream and leaves its (reusable: constant / control) operand untouched"),
   Clause("matrix", strat_matrix, run_matrix, quick=3200, thorough=60000,
          floors={"reflected": .1, "unequal lengths": .1, "periodic truncated": .06,
                  "scalar repeated": .02, "clean end": .25, "element exception": .03},
